@@ -109,6 +109,7 @@ var streamPool = sync.Pool{
 
 func NewStream(id uint32, win int32) *Stream {
 	strm := streamPool.Get().(*Stream)
+	verifPoolGet(3, strm)
 	strm.id = id
 	strm.window = int64(win)
 	strm.state = StreamStateIdle
